@@ -149,6 +149,40 @@ def is_shifted(c, arg, inits, pm, closure_ctx):
                     recv = peel_refs(inits[recv["local"]])
                 if recv.get("k") == "Binary" and recv["op"] == "-":
                     return is_max_derived(c, recv["r"], inits)
+                # the array was shifted in place beforehand: `row.mapv_inplace(|x| x - max); .. row.mapv(|x| x.exp())`
+                if recv.get("k") == "Path" and "local" in recv and _shifted_in_place(c, recv["local"], call, inits, pm):
+                    return True
+    return False
+
+
+def _shifted_in_place(c, local, before, inits, pm):
+    """an earlier statement of an enclosing block subtracts a maximum from the array bound to `local`, in place"""
+    node = before
+    while node is not None:
+        par = pm.get(id(node))
+        if par is not None and par.get("k") == "Block":
+            for st in par.get("stmts", []):
+                if st is node or any(z is node for z in walk(st)):
+                    break
+                e = st.get("e") if st.get("k") in ("ExprStmt", "Semi") else st
+                if not isinstance(e, dict):
+                    continue
+                e = peel_refs(e)
+                if e.get("k") == "MethodCall" and e["name"] in ("mapv_inplace", "map_inplace") and e.get("args"):
+                    r = peel_refs(e["recv"])
+                    clo = peel_refs(e["args"][0])
+                    if r.get("k") == "Path" and r.get("local") == local and clo.get("k") == "Closure":
+                        body = clo["body"]
+                        while body.get("k") == "Block" and not body.get("stmts") and body.get("e") is not None:
+                            body = body["e"]
+                        body = peel_refs(body)
+                        if body.get("k") == "Binary" and body["op"] == "-" and is_max_derived(c, body["r"], inits):
+                            return True
+                if e.get("k") == "AssignOp" and e["op"] == "-":
+                    l = peel_refs(e["l"])
+                    if l.get("k") == "Path" and l.get("local") == local and is_max_derived(c, e["r"], inits):
+                        return True
+        node = par
     return False
 
 
